@@ -498,16 +498,26 @@ func (w *Update) nextOp() {
 		name := pickFrom(ch, "work", "cname", uClusters)
 		var addrs []string
 		if c := m.Clusters[name]; c != nil && len(c.Hosts) > 0 {
-			addrs = append(addrs, c.Hosts[ch.Pick("work", "delidx", len(c.Hosts))].Addr)
+			// one to three members, named in a drawn order (ascending, descending, mixed)
+			gone := map[string]bool{}
+			for k, n := 0, 1+ch.Pick("work", "ndel", 3); k < n && len(gone) < len(c.Hosts); k++ {
+				a := c.Hosts[ch.Pick("work", "delidx", len(c.Hosts))].Addr
+				if !gone[a] {
+					gone[a] = true
+					addrs = append(addrs, a)
+				}
+			}
 			var keep []mHost
 			for _, h := range c.Hosts {
-				if h.Addr != addrs[0] {
+				if !gone[h.Addr] {
 					keep = append(keep, h)
 				}
 			}
 			c.Hosts = keep
 		}
-		addrs = append(addrs, "10.99.0.1:80") // not a member
+		// ... and an address that is not a member, somewhere in the list
+		at := ch.Pick("work", "delnonmember", len(addrs)+1)
+		addrs = append(addrs[:at], append([]string{"10.99.0.1:80"}, addrs[at:]...)...)
 		desc += fmt.Sprint(" ", name, " ", addrs)
 		run = func() { _ = adapter.TriggerHostDel(name, addrs) }
 	case "xds.endpoints":
